@@ -30,10 +30,88 @@ func runC16(c *Ctx) {
 	c.rule("Y4", "immutable cache: entry directories are listed only through listCompleteFilesByModTime, which uses an item only where both the .part and the .hash tests are false", 3)
 	c.rule("Y5", "TransferFiles returns success only where hash(source) equals a recomputed (forced) hash of the destination", 2)
 	c.rule("Y6", "unpackPackageToLocalDestination unzips the verified temporary copy returned by TransferFiles, after it succeeded", 1)
+	c.rule("Y7", "Fetch/Store report the failure of the work they did: no deferred literal overwrites the error result unconditionally", 4)
 
 	c.c16Typestate()
 	c.c16Immutable()
 	c.c16Transfer()
+	c.c16ErrorKept()
+}
+
+// Y7: the error of the work done by Fetch/Store reaches the caller: no deferred
+// literal overwrites the function's error result unconditionally.
+func (c *Ctx) c16ErrorKept() {
+	for _, f := range c.srcFuncs(scPkg) {
+		if f.Parent() != nil || f.Signature.Results().Len() == 0 {
+			continue
+		}
+		res := f.Signature.Results()
+		if !isErrorType(res.At(res.Len() - 1).Type()) {
+			continue
+		}
+		n := 0
+		bad := ""
+		allInstrs(f, func(in ssa.Instruction) {
+			d, ok := in.(*ssa.Defer)
+			if !ok {
+				return
+			}
+			mc, ok := d.Call.Value.(*ssa.MakeClosure)
+			if !ok {
+				return
+			}
+			lit := mc.Fn.(*ssa.Function)
+			for i, b := range mc.Bindings {
+				al, ok := b.(*ssa.Alloc)
+				if !ok || !isErrorType(al.Type().(*types.Pointer).Elem()) || i >= len(lit.FreeVars) {
+					continue
+				}
+				// is this cell what the function returns as its error?
+				isResult := false
+				allInstrs(f, func(j ssa.Instruction) {
+					if r, ok := j.(*ssa.Return); ok && len(r.Results) > 0 {
+						if u, ok := r.Results[len(r.Results)-1].(*ssa.UnOp); ok && u.X == ssa.Value(al) {
+							isResult = true
+						}
+					}
+				})
+				if !isResult {
+					continue
+				}
+				fv := lit.FreeVars[i]
+				for _, r := range *fv.Referrers() {
+					st, ok := r.(*ssa.Store)
+					if !ok || st.Addr != ssa.Value(fv) {
+						continue
+					}
+					n++
+					// accepted: the store happens only where the current error was found nil
+					guarded := false
+					for _, bb := range lit.Blocks {
+						ifi, ok := bb.Instrs[len(bb.Instrs)-1].(*ssa.If)
+						if !ok {
+							continue
+						}
+						x, nilSucc, ok := nilTest(ifi)
+						if !ok {
+							continue
+						}
+						if u, ok := x.(*ssa.UnOp); ok && u.X == ssa.Value(fv) && edgeDominates(bb, nilSucc, st.Block()) {
+							guarded = true
+						}
+					}
+					if !guarded {
+						bad = c.ipos(st)
+					}
+				}
+			}
+		})
+		if n == 0 && f.Name() != "Fetch" && f.Name() != "Store" {
+			continue
+		}
+		c.FuncsSeen[fname(f)] = true
+		c.check(bad == "", "Y7", fname(f), c.pos(f.Pos()), "no deferred literal overwrites the error result", "the deferred literal at "+bad+" overwrites the function's error result unconditionally: when the transfer under the lock fails and the release succeeds the caller is told the operation succeeded although nothing complete was installed")
+	}
 }
 
 // ---------------------------------------------------------------------------
